@@ -136,14 +136,14 @@ theorem advance_stack (nfa : Nfa) (lim : Limits) (r : Run) (e : Ev) (hf : NfaFwd
         cases hkc : r.kc with
         | none =>
           simp only [StackInv, kcN, hkc] at h
-          simp only [Bool.false_eq_true, if_false, AdvStack, StackInv, kcN, Run.push, hkc, add_nextVar,
+          simp only [Bool.false_eq_true, if_false, Bool.false_and, AdvStack, StackInv, kcN, Run.push, hkc, add_nextVar,
             List.length_append, List.length_cons, List.length_nil, KCap.init]
           omega
         | some k' =>
           simp only [StackInv, kcN, hkc] at h
           by_cases hcap : k'.nextVar ≥ lim.maxEvents
           · simp only [hcap, decide_true, if_true, AdvStack, StackInv, kcN, hkc]; omega
-          · simp only [hcap, decide_false, Bool.false_eq_true, if_false, AdvStack, StackInv, kcN, Run.push, hkc,
+          · simp only [hcap, decide_false, Bool.false_eq_true, if_false, Bool.false_and, AdvStack, StackInv, kcN, Run.push, hkc,
               add_nextVar, List.length_append, List.length_cons, List.length_nil]
             omega
       · simp only [hloop]
@@ -435,17 +435,27 @@ theorem step_stack (nfa : Nfa) (cfg : Cfg) (s s' : Eng) (e : Ev) (o : Out) (hf :
       rw [← hstep.1]; exact hs1
     | run r =>
       rw [hts] at hstart
-      simp only [hts, Option.some.injEq, Prod.mk.injEq] at hstep
+      simp only [hts] at hstep
       have hbp : ∀ x ∈ (handleBp cfg s1.created s1.dropped runs1 r).1, StackInv x := by
         intro x hx
         rcases handleBp_mem _ _ _ _ _ _ hx with h' | rfl
         · exact hv1 x h'
         · exact hstart
       have hs2 := hput s1 _ hs1 hbp
-      rw [← hstep.1]
-      generalize (if cfg.partitioned then { s1 with parts := partSet s1.parts e.key (handleBp cfg s1.created s1.dropped runs1 r).1 }
-        else { s1 with runs := (handleBp cfg s1.created s1.dropped runs1 r).1 }) = s2 at hs2
-      cases (handleBp cfg s1.created s1.dropped runs1 r).2 <;> exact hs2
+      cases hst : nfa.states[r.cur]? with
+      | none => simp [hst] at hstep
+      | some st =>
+        simp only [hst] at hstep
+        by_cases hacc : st.ty = .accept
+        · rw [if_pos hacc] at hstep
+          simp only [Option.some.injEq, Prod.mk.injEq] at hstep
+          rw [← hstep.1]; exact hs1
+        · rw [if_neg hacc] at hstep
+          simp only [Option.some.injEq, Prod.mk.injEq] at hstep
+          rw [← hstep.1]
+          generalize (if cfg.partitioned then { s1 with parts := partSet s1.parts e.key (handleBp cfg s1.created s1.dropped runs1 r).1 }
+            else { s1 with runs := (handleBp cfg s1.created s1.dropped runs1 r).1 }) = s2 at hs2
+          cases (handleBp cfg s1.created s1.dropped runs1 r).2 <;> exact hs2
 
 theorem runAll_stack (nfa : Nfa) (cfg : Cfg) (hf : NfaFwd nfa) (hnt : NoTrailingAll nfa) :
     ∀ (evs : List Ev) (s s' : Eng) (outs : List Out), EngStack s → runAll nfa cfg s evs = some (s', outs) → EngStack s' := by
